@@ -22,6 +22,7 @@ type Obligation struct {
 	DeclMap   map[string]string
 	DeclOrder []string
 	Axioms    []string
+	AxiomKeys map[string][]string
 	Distinct  [][]string
 	Vacuity bool // expected to be refuted (sat): guards against contradictory assumptions
 	Inputs []InputSym
@@ -56,6 +57,7 @@ type VC struct {
 	declOrder []string
 	axioms    []string
 	axiomSeen map[string]bool
+	axiomKeys map[string][]string
 	nfresh    int
 	strlits   map[string]string
 	typeTags  map[string]int
@@ -95,8 +97,11 @@ type VC struct {
 	dry         int
 	nepoch      int
 	nbound      int
+	qdepth      int
 	predDepth   int
 	inTypeInv   bool
+	compLeafT   map[string]types.Type
+	epochAlloc  map[int]string
 }
 
 type inlineFrame struct {
@@ -105,11 +110,11 @@ type inlineFrame struct {
 }
 
 func newVC(w *World, pkg *PkgInfo, fd *ast.FuncDecl, c *Contract) *VC {
-	vc := &VC{w: w, pkg: pkg, fd: fd, contract: c, decls: map[string]string{}, axiomSeen: map[string]bool{}, strlits: map[string]string{},
+	vc := &VC{w: w, pkg: pkg, fd: fd, contract: c, decls: map[string]string{}, axiomSeen: map[string]bool{}, axiomKeys: map[string][]string{}, strlits: map[string]string{},
 		typeTags: map[string]int{}, oblCount: map[string]int{}, maxPaths: 4000, uncontracted: map[string]bool{}, depsUsed: map[string]bool{},
 		dropped: map[string]bool{}, written: map[string]bool{}, wraps: map[string]bool{}, noSafety: map[string]bool{}, mode: "contract",
 		calleesWithContract: map[string]bool{}, boxed: map[*types.Var]bool{}, boxScanned: map[ast.Node]bool{}, assumptions: map[string]bool{},
-		sentinels: map[string]bool{}, compSort: map[string]string{}, hidden: map[string]*types.Var{}}
+		sentinels: map[string]bool{}, compSort: map[string]string{}, hidden: map[string]*types.Var{}, compLeafT: map[string]types.Type{}, epochAlloc: map[int]string{0: "Alloc0"}}
 	vc.curInfo = pkg.P.TypesInfo
 	vc.curPkg = pkg
 	if fd != nil {
@@ -121,6 +126,10 @@ func newVC(w *World, pkg *PkgInfo, fd *ast.FuncDecl, c *Contract) *VC {
 		vc.noSafety = c.NoSafety
 	}
 	vc.declare("Alloc0", "(Array Int Bool)")
+	vc.declareFun("pr", "(Int Int) Int")
+	vc.declareFun("pr1", "(Int) Int")
+	vc.declareFun("pr2", "(Int) Int")
+	vc.addAxiomKeyed([]string{"pr"}, "(forall ((a Int) (i Int)) (! (and (= (pr1 (pr a i)) a) (= (pr2 (pr a i)) i)) :pattern ((pr a i))))")
 	vc.declareFun("strlen", "(Int) Int")
 	vc.declareFun("strat", "(Int Int) Int")
 	vc.declareFun("strcat", "(Int Int) Int")
@@ -128,8 +137,8 @@ func newVC(w *World, pkg *PkgInfo, fd *ast.FuncDecl, c *Contract) *VC {
 	vc.declareFun("ptrof", "(Int) Int")
 	vc.declareFun("mkiface", "(Int Int) Int")
 	vc.addAxiom("(forall ((s Int)) (! (>= (strlen s) 0) :pattern ((strlen s))))")
-	vc.addAxiom("(forall ((a Int) (b Int)) (! (= (strlen (strcat a b)) (+ (strlen a) (strlen b))) :pattern ((strcat a b))))")
-	vc.addAxiom("(forall ((t Int) (p Int)) (! (and (= (typeof (mkiface t p)) t) (= (ptrof (mkiface t p)) p) (not (= (mkiface t p) 0))) :pattern ((mkiface t p))))")
+	vc.addAxiomKeyed([]string{"strcat"}, "(forall ((a Int) (b Int)) (! (= (strlen (strcat a b)) (+ (strlen a) (strlen b))) :pattern ((strcat a b))))")
+	vc.addAxiomKeyed([]string{"mkiface"}, "(forall ((t Int) (p Int)) (! (and (= (typeof (mkiface t p)) t) (= (ptrof (mkiface t p)) p) (not (= (mkiface t p) 0))) :pattern ((mkiface t p))))")
 	vc.addAxiom("(= (strlen 0) 0)")
 	return vc
 }
@@ -154,10 +163,20 @@ var mangleRe = regexp.MustCompile(`[^A-Za-z0-9_]`)
 
 func mangle(s string) string { return mangleRe.ReplaceAllString(s, "_") }
 
+// flatSort: level-2 components (elements of slices, map entries) are declared as flat arrays indexed by
+// the uninterpreted pair pr(outer, inner); nested SMT arrays make quantifier instantiation diverge.
+func flatSort(sort string) string {
+	if strings.HasPrefix(sort, "(Array Int (Array Int ") {
+		return "(Array Int " + strings.TrimSuffix(strings.TrimPrefix(sort, "(Array Int (Array Int "), "))") + ")"
+	}
+	return sort
+}
+
 func (vc *VC) declare(name, sort string) {
 	if _, ok := vc.decls[name]; ok {
 		return
 	}
+	sort = flatSort(sort)
 	vc.decls[name] = "(declare-const " + name + " " + sort + ")"
 	vc.declOrder = append(vc.declOrder, name)
 }
@@ -177,6 +196,16 @@ func (vc *VC) addAxiom(a string) {
 	}
 	vc.axiomSeen[a] = true
 	vc.axioms = append(vc.axioms, a)
+}
+
+// addAxiomKeyed: an axiom that is relevant as soon as all of the key symbols are used (the default
+// relevance rule requires every declared symbol of the axiom to be used).
+func (vc *VC) addAxiomKeyed(keys []string, a string) {
+	if vc.axiomSeen[a] {
+		return
+	}
+	vc.addAxiom(a)
+	vc.axiomKeys[a] = keys
 }
 
 func (vc *VC) fresh(hint, sort string) string {
@@ -210,12 +239,79 @@ func (vc *VC) heapGet(st *State, comp string, sort string) string {
 	n := vc.initialSymEpoch(comp, st.epoch)
 	vc.declare(n, sort)
 	st.heap[comp] = n
+	vc.heapSymWF(n, comp, sort, vc.epochAlloc[st.epoch])
 	return n
+}
+
+// heapSymWF: typing axioms of a heap symbol, stated when the symbol is introduced: every integer cell is
+// within the range of its type; every pointer (and backing-array id) is nil or allocated with respect to the
+// allocation map that was current when the symbol was introduced; slice lengths/offsets are non-negative.
+func (vc *VC) heapSymWF(sym, comp, sort, alloc string) {
+	if alloc == "" {
+		alloc = "Alloc0"
+	}
+	lvl := strings.Count(sort, "(Array")
+	if strings.HasSuffix(sort, "Bool)") || sort == "Bool" {
+		return
+	}
+	var cell, binders string
+	switch lvl {
+	case 0:
+		cell = sym
+	case 1:
+		cell, binders = "(select "+sym+" r)", "((r Int))"
+	case 2:
+		cell, binders = "(select "+sym+" (pr a i))", "((a Int) (i Int))"
+	default:
+		return
+	}
+	var facts []string
+	T := vc.compLeafT[comp]
+	switch {
+	case strings.HasSuffix(comp, "#arr"):
+		facts = append(facts, smtOr(smtEq(cell, "0"), sel(alloc, cell)))
+	case strings.HasSuffix(comp, "#len"), strings.HasSuffix(comp, "#off"), strings.HasSuffix(comp, "#cap"):
+		facts = append(facts, app("<=", "0", cell))
+	case T != nil && isPointer(T):
+		facts = append(facts, smtOr(smtEq(cell, "0"), sel(alloc, cell)))
+	case T != nil:
+		if lo, hi, ok := intRange(T); ok {
+			facts = append(facts, app("<=", lo, cell, hi))
+		}
+	}
+	if len(facts) == 0 {
+		return
+	}
+	if lvl == 0 {
+		vc.addAxiom(smtAnd(facts...))
+		return
+	}
+	vc.addAxiom("(forall " + binders + " (! " + smtAnd(facts...) + " :pattern (" + cell + ")))")
 }
 
 func (vc *VC) heapSet(st *State, comp string, term string) {
 	st.heap[comp] = term
 	vc.written[comp] = true
+}
+
+// rowUpdate replaces a whole row (all cells with outer index `outer`) of a level-2 component: the new heap
+// symbol agrees with the old one outside the row; inside, cellFact(i, newCell, oldCell) holds for every i
+// (nil: unconstrained). Returns the new heap symbol.
+func (vc *VC) rowUpdate(st *State, comp, sort, outer string, cellFact func(i, newCell, oldCell string) string) string {
+	h := vc.heapGet(st, comp, sort)
+	n := vc.fresh("H_"+comp, sort)
+	st.assume(fmt.Sprintf("(forall ((a!r Int) (i!r Int)) (! (=> (not (= a!r %s)) (= (select %s (pr a!r i!r)) (select %s (pr a!r i!r)))) :pattern ((select %s (pr a!r i!r))) :qid rowframe))", outer, n, h, n))
+	if cellFact != nil {
+		nc := fmt.Sprintf("(select %s (pr %s i!r))", n, outer)
+		oc := fmt.Sprintf("(select %s (pr %s i!r))", h, outer)
+		f := cellFact("i!r", nc, oc)
+		if f != "" && f != "true" {
+			st.assume("(forall ((i!r Int)) (! " + f + " :pattern (" + nc + ") :qid rowcell))")
+		}
+	}
+	st.logWrite(comp, outer)
+	vc.heapSet(st, comp, n)
+	return n
 }
 
 // bindTerm gives a large term a short name to keep formulas small.
@@ -228,7 +324,11 @@ func (vc *VC) bindTerm(st *State, hint, sort, term string) string {
 	return n
 }
 
-func (vc *VC) heapUpdate(st *State, comp, sort, newTerm string) {
+func (vc *VC) heapUpdate(st *State, comp, sort, outer, newTerm string) {
+	if outer == "" {
+		outer = "*"
+	}
+	st.logWrite(comp, outer)
 	vc.heapSet(st, comp, vc.bindTerm(st, "H_"+comp, sort, newTerm))
 }
 
@@ -254,20 +354,21 @@ func (vc *VC) loadShape(st *State, comp string, T types.Type, lvl int, acc func(
 		v.Off = acc(vc.heapGet(st, comp+"#off", sortAt("Int", lvl)))
 		v.Len = acc(vc.heapGet(st, comp+"#len", sortAt("Int", lvl)))
 		v.Cap = acc(vc.heapGet(st, comp+"#cap", sortAt("Int", lvl)))
-		vc.assumeSliceWF(st, v)
+		st.assume(app("<=", v.Len, v.Cap))
 		return v
 	}
+	vc.compLeafT[comp] = T
 	h := vc.heapGet(st, comp, sortAt("Int", lvl))
 	v := intV(acc(h), T)
-	vc.assumeTyped(st, v)
+	vc.assumeTypeInv(st, v)
 	return v
 }
 
-func (vc *VC) storeShape(st *State, comp string, T types.Type, lvl int, upd func(h, v string) string, val *Value) {
+func (vc *VC) storeShape(st *State, comp string, T types.Type, lvl int, outer string, upd func(h, v string) string, val *Value) {
 	switch shapeOf(T) {
 	case shBool:
 		h := vc.heapGet(st, comp, sortAt("Bool", lvl))
-		vc.heapUpdate(st, comp, sortAt("Bool", lvl), upd(h, val.Term))
+		vc.heapUpdate(st, comp, sortAt("Bool", lvl), outer, upd(h, val.Term))
 		return
 	case shStruct:
 		s := under(T).(*types.Struct)
@@ -277,7 +378,7 @@ func (vc *VC) storeShape(st *State, comp string, T types.Type, lvl int, upd func
 			if fv == nil {
 				fv = vc.zeroValue(f.Type())
 			}
-			vc.storeShape(st, comp+"."+f.Name(), f.Type(), lvl, upd, fv)
+			vc.storeShape(st, comp+"."+f.Name(), f.Type(), lvl, outer, upd, fv)
 		}
 		return
 	case shSlice:
@@ -286,12 +387,13 @@ func (vc *VC) storeShape(st *State, comp string, T types.Type, lvl int, upd func
 		}
 		for _, p := range [][2]string{{"#arr", val.Arr}, {"#off", val.Off}, {"#len", val.Len}, {"#cap", val.Cap}} {
 			h := vc.heapGet(st, comp+p[0], sortAt("Int", lvl))
-			vc.heapUpdate(st, comp+p[0], sortAt("Int", lvl), upd(h, p[1]))
+			vc.heapUpdate(st, comp+p[0], sortAt("Int", lvl), outer, upd(h, p[1]))
 		}
 		return
 	}
+	vc.compLeafT[comp] = T
 	h := vc.heapGet(st, comp, sortAt("Int", lvl))
-	vc.heapUpdate(st, comp, sortAt("Int", lvl), upd(h, val.Term))
+	vc.heapUpdate(st, comp, sortAt("Int", lvl), outer, upd(h, val.Term))
 }
 
 func (vc *VC) assumeSliceWF(st *State, v *Value) {
@@ -310,6 +412,13 @@ func (vc *VC) assumeTyped(st *State, v *Value) {
 	if isPointer(v.T) {
 		// every reachable pointer is nil or allocated
 		st.assume(smtOr(smtEq(v.Term, "0"), sel(st.alloc, v.Term)))
+	}
+	vc.assumeTypeInv(st, v)
+}
+
+func (vc *VC) assumeTypeInv(st *State, v *Value) {
+	if v.K != VInt || v.T == nil {
+		return
 	}
 	if n := namedOf(v.T); n != nil {
 		if ti := vc.w.TypeInvs[n.Obj().Pkg().Path()+"."+n.Obj().Name()]; ti != nil {
@@ -352,7 +461,7 @@ func (vc *VC) loadField(st *State, ref string, structT types.Type, fname string,
 
 func (vc *VC) storeField(st *State, ref string, structT types.Type, fname string, fT types.Type, val *Value) {
 	comp := structCompPrefix(structT) + "." + fname
-	vc.storeShape(st, comp, fT, 1, func(h, v string) string { return sto(h, ref, v) }, val)
+	vc.storeShape(st, comp, fT, 1, ref, func(h, v string) string { return sto(h, ref, v) }, val)
 }
 
 func elemCompPrefix(elemT types.Type) string { return "[]" + typeKey(elemT) }
@@ -362,7 +471,7 @@ func (vc *VC) loadElem(st *State, s *Value, idx string, elemT types.Type) *Value
 	if s.Off != "0" {
 		pos = app("+", s.Off, idx)
 	}
-	return vc.loadShape(st, elemCompPrefix(elemT), elemT, 2, func(h string) string { return sel(sel(h, s.Arr), pos) })
+	return vc.loadShape(st, elemCompPrefix(elemT), elemT, 2, func(h string) string { return sel2(h, s.Arr, pos) })
 }
 
 func (vc *VC) storeElem(st *State, s *Value, idx string, elemT types.Type, val *Value) {
@@ -370,24 +479,25 @@ func (vc *VC) storeElem(st *State, s *Value, idx string, elemT types.Type, val *
 	if s.Off != "0" {
 		pos = app("+", s.Off, idx)
 	}
-	vc.storeShape(st, elemCompPrefix(elemT), elemT, 2, func(h, v string) string { return sto(h, s.Arr, sto(sel(h, s.Arr), pos, v)) }, val)
+	vc.storeShape(st, elemCompPrefix(elemT), elemT, 2, s.Arr, func(h, v string) string { return sto2(h, s.Arr, pos, v) }, val)
 }
 
 // leafComps lists the heap components (name, sort at level lvl) that make up a value of type T under prefix comp.
-func leafComps(comp string, T types.Type, lvl int, f func(comp, sort string)) {
+func (vc *VC) leafComps(comp string, T types.Type, lvl int, f func(comp, sort string)) {
 	switch shapeOf(T) {
 	case shBool:
 		f(comp, sortAt("Bool", lvl))
 	case shStruct:
 		s := under(T).(*types.Struct)
 		for i := 0; i < s.NumFields(); i++ {
-			leafComps(comp+"."+s.Field(i).Name(), s.Field(i).Type(), lvl, f)
+			vc.leafComps(comp+"."+s.Field(i).Name(), s.Field(i).Type(), lvl, f)
 		}
 	case shSlice:
 		for _, x := range []string{"#arr", "#off", "#len", "#cap"} {
 			f(comp+x, sortAt("Int", lvl))
 		}
 	default:
+		vc.compLeafT[comp] = T
 		f(comp, sortAt("Int", lvl))
 	}
 }
